@@ -53,7 +53,8 @@ theorem popRaw_be (w n : Nat) (rest : Bytes) (hw : 0 < w) (h : n < 256 ^ w) :
   unfold popRaw
   have h1 : ¬ ((w : Int) < 0) := by omega
   have h2 : ¬ (w + rest.length < w) := by omega
-  simp [this, h1, h2]
+  have h3 : w ≠ 0 := by omega
+  simp [this, h1, h2, h3]
 
 theorem zeros_all_zero (n : Nat) : (zeros n).all (· == 0) = true := by
   simp [zeros]
